@@ -158,6 +158,8 @@ def flagsOfJson (j : Json) : Flags := ⟨getBool j "fail", getBool j "single" tr
 def errToJson : Err → Json
   | .nosub k => Json.mkObj [("err", "nosub"), ("key", .str (".".intercalate k))]
   | .reqkey k => Json.mkObj [("err", "reqkey"), ("key", .str (".".intercalate k))]
+  | .badname k => Json.mkObj [("err", "badname"), ("key", .str (".".intercalate k))]
+  | .badsec k => Json.mkObj [("err", "badsec"), ("key", .str (".".intercalate k))]
   | .crash => Json.mkObj [("err", "crash")]
 
 def resCfg : Except Err Cfg → Json
